@@ -345,7 +345,10 @@ func reifyGetField(
 		// None primitive types always get initialized even if it doesn't implement the
 		// Initializer interface, because nested types might implement the Initializer interface.
 		if value == nil {
-			value = &cfgNil{cfgPrimitive{cfg.ctx, cfg.metadata}}
+			// the null stands for the missing setting: it is located at the
+			// field's name below cfg, so that errors name that setting
+			ctx := context{parent: cfgSub{cfg}, field: name}
+			value = &cfgNil{cfgPrimitive{ctx, cfg.metadata}}
 		}
 	}
 
